@@ -8,7 +8,7 @@
    The facts about the source that the cache model rests on are regenerated on every run
    (Gen/C07CacheKeys.v, tools/c07_cache_keys.py) and compared below. *)
 From Coq Require Import String List Bool.
-From Tally Require Import C07.Model Gen.C07CacheKeys C07.Proofs.
+From Tally Require Import C07.Model Gen.C07CacheKeys C07.Proofs C07.Args.
 Import ListNotations.
 
 (* ---- the source still has the shape the model assumes ------------------------------------------ *)
@@ -145,6 +145,50 @@ Theorem c07_before_e98b1f7_refuted_generally :
 Proof. exact refuted_whenever_paths_differ. Qed.
 Print Assumptions c07_before_e98b1f7_refuted_generally.
 
+(* ---- per-call arguments and per-object state (C07/Args.v) ---------------------------------------------- *)
+(* the write discipline read from the source is the one Args.good_design stands for *)
+Theorem c07_write_discipline_as_modelled :
+  C07CacheKeys.engine_state_writers = expected_engine_state_writers /\
+  C07CacheKeys.add_rule_callers = expected_add_rule_callers /\
+  C07CacheKeys.engine_param_mutations = [] /\
+  C07CacheKeys.evaluator_attrs = expected_evaluator_attrs /\
+  C07CacheKeys.scope_init = "{}"%string /\
+  C07CacheKeys.scope_writers = expected_scope_writers /\
+  C07CacheKeys.context_writers = ["__init__"%string] /\
+  C07CacheKeys.evaluator_sites = expected_evaluator_sites.
+Proof. repeat split; reflexivity. Qed.
+Print Assumptions c07_write_discipline_as_modelled.
+
+(* supplemental rows, thresholds, variables are ARGUMENTS and the evaluator's scope lives for one evaluation: for
+   every matcher and evaluator, every history of engine.parse / engine.match (with rows, without, with other rows) /
+   evaluate_transaction and every operation, the result is that of the operation after the last parse alone *)
+Theorem c07_args_independent : args_independent good_design.
+Proof. exact args_independent_good. Qed.
+Print Assumptions c07_args_independent.
+
+(* ... stated for the design the source under test has (type-checks only while match() writes nothing on the
+   engine and the scope is created per evaluation) *)
+Theorem c07_args_independent_of_source :
+  args_independent {| remembers_rows := negb C07CacheKeys.engine_match_write_free;
+                      shares_scope := negb C07CacheKeys.scope_per_evaluation |}.
+Proof. exact args_independent_good. Qed.
+Print Assumptions c07_args_independent_of_source.
+
+(* the statement is not vacuous: it is FALSE of the two neighbouring designs, and true of no other *)
+Definition c07_args_independent_statement (D : design) : Prop := args_independent D.
+Theorem c07_args_remembering_rows_refuted :
+  forall b, ~ c07_args_independent_statement {| remembers_rows := true; shares_scope := b |}.
+Proof. exact remembering_rows_refuted. Qed.
+Print Assumptions c07_args_remembering_rows_refuted.
+Theorem c07_args_sharing_scope_refuted :
+  forall b, ~ c07_args_independent_statement {| remembers_rows := b; shares_scope := true |}.
+Proof. exact sharing_scope_refuted. Qed.
+Print Assumptions c07_args_sharing_scope_refuted.
+Theorem c07_args_independent_iff_good_design :
+  forall D, c07_args_independent_statement D <-> D = good_design.
+Proof. exact args_independent_iff. Qed.
+Print Assumptions c07_args_independent_iff_good_design.
+
 (* ---- frame -------------------------------------------------------------------------------------- *)
 (* only loads change the cached engine and the rules the caller holds; only engine.parse changes the
    engine object: classifying / evaluating / matching return them unchanged *)
@@ -182,4 +226,14 @@ Example c07_caches_used :
   let st' := exec toy true (init toy) h in
   map fst (ecache (cs toy st)) = ["contains(""UBER"")"%string] /\ map fst (rcache (cs toy st)) = [] /\
   map fst (ecache (cs toy st')) = ["contains(""UBER"")"%string] /\ map fst (rcache (cs toy st')) = ["UBER"%string].
+Proof. vm_compute. repeat split; reflexivity. Qed.
+
+(* Args: with rows, then without — the good design answers 0 (no rows reach the matcher), a remembering one 1 *)
+Example c07_args_witness :
+  aout_after rows_toy good_design [@AParse rows_toy tt; @AMatch rows_toy tt (Some tt)] (@AMatch rows_toy tt None) = @ARes rows_toy 0 /\
+  aout_after rows_toy {| remembers_rows := true; shares_scope := false |}
+             [@AParse rows_toy tt; @AMatch rows_toy tt (Some tt)] (@AMatch rows_toy tt None) = @ARes rows_toy 1 /\
+  aout_after scope_toy good_design [@AEval scope_toy "(k := 5) > 0" tt None] (@AEval scope_toy "k > 0" tt None) = @AVal scope_toy 0 /\
+  aout_after scope_toy {| remembers_rows := false; shares_scope := true |}
+             [@AEval scope_toy "(k := 5) > 0" tt None] (@AEval scope_toy "k > 0" tt None) = @AVal scope_toy 1.
 Proof. vm_compute. repeat split; reflexivity. Qed.
